@@ -110,12 +110,33 @@ def runOp (uid : Nat) (c : GClient) (op : String) : Option (GClient × String) :
     | .err _ => pure (c, showStep "E" [] [])
     | .panic _ => pure (c, showStep "P" [] [])
 
-def runOps (uid : Nat) : GClient → List String → List String → Option (List String)
-  | _, [], acc => some acc.reverse
-  | c, op :: ops, acc =>
-    match runOp uid c op with
-    | some (c', s) => runOps uid c' ops (s :: acc)
-    | none => none
+/-- a write failure scheduled by `Q<k>` (the k-th frame written from now on is refused by the transport): the
+    frames before it went out, the call fails, and the activation state is the one before the call (the state is
+    assigned after the writes) -/
+def applyFail (c c' : GClient) (s : String) (failIn : Option Nat) : GClient × String × Option Nat :=
+  match failIn with
+  | none => (c', s, none)
+  | some k =>
+    let inner := ((s.splitOn "[").getD 1 "").dropEnd 1 |>.toString
+    let frames := if inner = "" then [] else inner.splitOn "+"
+    if k ≤ frames.length ∧ 0 < k then
+      ({ c' with state := c.state }, "E[" ++ "+".intercalate (frames.take (k - 1)) ++ "][]", none)
+    else (c', s, some (k - frames.length))
+
+def runOps (uid : Nat) : GClient → Option Nat → List String → List String → Option (List String)
+  | _, _, [], acc => some acc.reverse
+  | c, failIn, op :: ops, acc =>
+    match op.toList with
+    | 'Q' :: rest =>
+      match (String.ofList rest).toNat? with
+      | some k => runOps uid c (some k) ops (showStep "ok" [] [] :: acc)
+      | none => none
+    | _ =>
+      match runOp uid c op with
+      | some (c', s) =>
+        let (c'', s', f') := applyFail c c' s failIn
+        runOps uid c'' f' ops (s' :: acc)
+      | none => none
 
 def parseLetter (s : String) : Option Letter :=
   match s with
@@ -211,7 +232,7 @@ def gsess (toks : List String) : String :=
     match uid.toNat?, w.toNat?, h.toNat?, lay.toNat?, ofHex name with
     | some uid, some w, some h, some lay, some name =>
       let c : GClient := ⟨.demandActive, uid, 1003, w, h, lay, none, name⟩
-      match runOps uid c (ops.splitOn ",") [] with
+      match runOps uid c none (ops.splitOn ",") [] with
       | some outs =>
         let model := ";".intercalate outs
         let oracle := match rest with
